@@ -841,6 +841,229 @@ def check_instances(res, cases):
             res.fail("corr", inp, model, outs, "independent filter machines and filters.py differ")
 
 
+
+# ---------------------------------------------------------------- numbers as binary64 (no grid): Model/FiltersF64.lean
+def _ratio(x):
+    n, d = float(x).as_integer_ratio()
+    return f"{n}/{d}"
+
+
+def gen_f64_seq(rng):
+    """a sequence of finite doubles as the library meets them: decimal tenths / hundredths (the nearest doubles), values
+    ACCUMULATED in float arithmetic (v += 0.1), neighbours exactly the tolerance / one ulp around it apart, large magnitudes where
+    isclose's relative tolerance governs, tiny ones; some integral values passed as Python ints"""
+    import math
+
+    tol = filters.TOLERANCE
+    mode = rng.choice(["tenths", "tenths", "hundredths", "accumulated", "ulp", "large", "tiny", "mixed"])
+    n = rng.randint(2, 12)
+    if mode in ("tenths", "hundredths", "mixed"):
+        p = 10 if mode == "tenths" else 100
+        k = rng.choice([0, 1, 2, 3, 200, 201, -5, 999, rng.randrange(-600, 12000)]) * (p // 10)
+        ks = []
+        for _ in range(n):
+            ks.append(k)
+            k += rng.choice([0, 1, -1, 1, -1, 2, -2, 10, -10, 5, -5, 11, 9]) * (p // 10 if rng.random() < 0.7 else 1)
+        vals = [k / p for k in ks]
+        if mode == "mixed":
+            vals = [v if rng.random() < 0.6 else math.nextafter(v, rng.choice([-math.inf, math.inf])) for v in vals]
+    elif mode == "accumulated":
+        v = rng.choice([0.0, 0.3, 20.0, -1.0, 0.7])
+        vals = []
+        for _ in range(n):
+            vals.append(v)
+            v = v + rng.choice([0.1, -0.1, 0.1, 0.05, -0.05, 0.2, 0.0, tol, 0.30000000000000004 - 0.2])
+    elif mode == "ulp":
+        a = rng.choice([0.0, 0.1, 1.0, 20.0, -3.5, 0.2, 64.0, 1e-3, rng.randrange(-500, 500) / 10])
+        vals = [a]
+        for _ in range(n - 1):
+            d = rng.choice([tol, math.nextafter(tol, 0.0), math.nextafter(tol, 1.0), 2 * tol, 0.0, tol / 2])
+            b = vals[-1] + rng.choice([1, -1]) * d
+            if rng.random() < 0.3:
+                b = math.nextafter(b, rng.choice([-math.inf, math.inf]))
+            vals.append(b if rng.random() < 0.8 else a)
+    elif mode == "large":
+        a = rng.choice([1e8, 99999999.0, 100000001.0, 2e8, 1e9, 1e10, 123456789.5, 2.0 ** 53, 1e15])
+        vals = [a]
+        for _ in range(n - 1):
+            r = 1e-9 * abs(vals[-1])
+            b = vals[-1] + rng.choice([1, -1]) * rng.choice([0.05, 0.1, 0.15, r, r * 0.99, r * 1.01, 1.0, 2.0, 0.0])
+            vals.append(b)
+    else:
+        a = rng.choice([1e-12, -1e-12, 5e-324, 1e-300, 0.0, -0.0])
+        vals = [a]
+        for _ in range(n - 1):
+            vals.append(rng.choice([a, -a, a * 2, 0.1, 0.1 + a, 0.0, tol - a, -tol]))
+    out = []
+    for v in vals:
+        if v == int(v) and abs(v) < 2 ** 40 and rng.random() < 0.3:
+            v = int(v)
+        out.append(v)
+    return mode, out
+
+
+def f64_section(res, rng, tier, only=None):
+    """on_change / debounce / delta over sequences of arbitrary finite doubles: implementation vs the exact binary64 model
+    (`c20f`: math.isclose as CPython computes it, rounded subtraction), and vs the statement read on the exact values
+    ("differs by MORE than the tolerance") wherever that reading is the comparison the code computes: both magnitudes below
+    10^6 and the float subtraction of the two values exact."""
+    import asyncio
+    from fractions import Fraction
+
+    tol = Fraction(filters.TOLERANCE)
+    cases = []
+    if only is not None:
+        cases = [only]
+    else:
+        for _ in range(1500 if tier == "quick" else 40000):
+            mode, vals = gen_f64_seq(rng)
+            flt = rng.choice(["oc", "oc", "db:1", "db:2", "db:3", "de"])
+            cases.append((flt, mode, vals))
+
+    async def drive(flt, vals):
+        got = {}
+        cur = [None]
+
+        async def cb(v):
+            got.setdefault(cur[0], []).append(v)
+
+        f = make_filter(flt, cb)
+        errs = {}
+        for i, v in enumerate(vals):
+            cur[0] = i
+            try:
+                await f(v)
+            except Exception as e:  # noqa: BLE001
+                errs[i] = type(e).__name__
+        return got, errs
+
+    loop = asyncio.new_event_loop()
+    try:
+        impl = [loop.run_until_complete(drive(flt, vals)) for flt, _, vals in cases]
+    finally:
+        loop.close()
+    answers = driver_batch(" ".join(["c20f", flt] + [_ratio(v) for v in vals]) for flt, _, vals in cases)
+    for (flt, mode, vals), (got, errs), ans in zip(cases, impl, answers):
+        inp = dict(t="f64", filter=flt, values=[(v.hex() if isinstance(v, float) else repr(v)) for v in vals], mode=mode)
+        model = [] if ans == "." else ans.split(";")
+        obs = []
+        for i in range(len(vals)):
+            if i in errs:
+                obs.append("!" + errs[i])
+            elif i not in got:
+                obs.append("-")
+            elif len(got[i]) > 1:
+                obs.append("dd")
+            else:
+                obs.append("d" + str(Fraction(got[i][0])))
+        mod = ["-" if m == "-" else "d" + str(Fraction(m[1:])) for m in model]
+        nontrivial = len(set(o[0] for o in obs)) > 1
+        res.case(("f64", flt, tuple(inp["values"])), nontrivial)
+        res.count("binary64 numbers: " + mode)
+        res.count("binary64 filter: " + flt.split(":")[0])
+        # the statement on the exact values, where that IS the code's comparison
+        in_region = True
+        if flt.split(":")[0] in ("oc", "db"):
+            n = int(flt.split(":")[1]) if ":" in flt else None
+            last, streak, want = None, 0, []
+            for v in vals:
+                if last is None:
+                    want.append("d" + str(Fraction(v)))
+                    last = v
+                    continue
+                exact = Fraction(v) - Fraction(last)
+                if abs(v) >= 10 ** 6 or abs(last) >= 10 ** 6 or Fraction(float(v) - float(last)) != exact:
+                    in_region = False
+                    break
+                differs = abs(exact) > tol
+                if n is None:
+                    deliver = differs
+                else:
+                    streak = streak + 1 if differs else 0
+                    deliver = streak >= n
+                if deliver:
+                    want.append("d" + str(Fraction(v)))
+                    last, streak = v, 0
+                else:
+                    want.append("-")
+            if in_region:
+                res.count("binary64: judged by the statement on the exact values")
+                if obs != want:
+                    res.fail("spec", inp, want, obs, f"{flt}: over these doubles (exact differences, magnitudes below 10^6) a value is a change iff it "
+                             "differs from the last delivered one by MORE than the tolerance")
+                    continue
+            else:
+                res.count("binary64: outside the exact reading (the subtraction rounds, or |x| >= 10^6): model only")
+        if obs != mod:
+            res.fail("corr", inp, mod, obs, "exact binary64 model of math.isclose / the float difference and filters.py differ")
+
+
+def eq_probe(res):
+    """Filter.__eq__ / __hash__ for the object of every factory and every chain of two: against filters around the same / an
+    equal (bound method) / another callback, raw callables, non-callables; list membership and list.remove as unsubscribe uses
+    them; vs `c20eq` (Model/FiltersEq.lean)"""
+    class Holder:
+        async def meth(self, v):
+            return None
+
+    async def f0(v):
+        return None
+
+    async def f1(v):
+        return None
+
+    h = Holder()
+    # callback classes: 0 = f0, 1 = f1, 2 = h.meth (a new, equal object per access)
+    def cb(i):
+        return [f0, f1, None][i] if i < 2 else h.meth
+
+    specs = BASES + [a + ">" + b for a in BASES for b in BASES]
+    defaults = dict(oc="oc", db="db:2", th="th:16", de="de", ag="ag:16", cu="cu:always")
+
+    def build(spec, i):
+        return build_chain(">".join(defaults[x] for x in spec.split(">")), cb(i))
+
+    Clock.t = 0.0
+    lines, expect = [], []
+    for sa in specs:
+        for ia in range(3):
+            a = build(sa, ia)
+            ops, words = [], []
+            for sb in BASES + ["cu>oc"]:
+                for ib in range(3):
+                    ops.append(build(sb, ib))
+                    words.append(f"f{ib}")
+            for ib in range(3):
+                ops.append(cb(ib))
+                words.append(f"c{ib}")
+            for x in (0, None, "cb", 1.5, ()):
+                ops.append(x)
+                words.append("x")
+            got = "".join("1" if (a == x) is True else "0" if (a == x) is False else "?" for x in ops)
+            refl = "".join("1" if (x == a) is True else "0" if (x == a) is False else "?" for x in ops)
+            try:
+                idx = str(ops.index(cb(ia)))
+            except ValueError:
+                idx = "-"
+            try:
+                hash(a)
+                hashable = True
+            except TypeError:
+                hashable = False
+            lines.append(" ".join(["c20eq", f"f{ia}"] + words))
+            expect.append((sa, ia, got, refl, idx, hashable))
+    answers = driver_batch(lines)
+    for (sa, ia, got, refl, idx, hashable), ans in zip(expect, answers):
+        res.case(("eq", sa, ia), True)
+        res.count("Filter.__eq__ probe: " + ("chain" if ">" in sa else "base"))
+        inp = dict(t="eq", filter=sa, callback=ia)
+        if hashable:
+            res.fail("corr", inp, "unhashable (Gen.filterFactories)", "hash(filter) works", "Filter defines __eq__ and no __hash__: filter objects are unhashable")
+        if f"{got}|{idx}" != ans or refl != got:
+            res.fail("corr", inp, ans, f"{got}|{idx} reflected {refl}",
+                     "Filter.__eq__: a filter equals exactly the filters around an equal callback and the callables equal to its callback")
+
+
 def run(ctx):
     rng = random.Random(ctx["seed"] * 7919 + 20)
     res = Result("C20")
@@ -863,9 +1086,15 @@ def run(ctx):
         inst_cases += [gen_instances(rng) for _ in range(600 if ctx["tier"] == "quick" else 12000)]
         check_instances(res, inst_cases)
     boundary_probe(res)
-    res.notes.append("numbers are multiples of 1/16 below 10^6: differences are exact in binary64 and the relative tolerance of "
-                     "math.isclose (1e-9*10^6 < 0.1) is inert; decimal inputs whose exact difference is the binary64 tolerance (or one ulp around it) "
-                     "are exercised by the boundary probe against the statement (differs by MORE than the tolerance), outside the Lean model")
+    if not ctx.get("max_cases"):
+        f64_section(res, rng, ctx["tier"])
+        eq_probe(res)
+    res.notes.append("numbers: (a) all filters, chains and value kinds on multiples of 1/16 below 10^6 (every float operation exact: the sums of delta / "
+                     "aggregate are exact there); (b) on_change / debounce / delta over ARBITRARY finite doubles (decimal tenths / hundredths, accumulated "
+                     "floats, values exactly the tolerance or one ulp around it apart, magnitudes from 1e-324 to 1e15) against the exact binary64 model of "
+                     "math.isclose and the rounded difference (Model/FiltersF64.lean, theorems Props/C20F64.lean), and against the statement on the exact "
+                     "values wherever the float subtraction is exact and |x| < 10^6.  Excluded: NaN / infinities; ints beyond 2^53; the exact-sum "
+                     "laws of delta / aggregate outside the grid of (a) (float sums round)")
     res.notes.append("Parameter objects are not mixed with other kinds of value in one sequence")
     return res
 
@@ -877,6 +1106,13 @@ def replay(ctx):
     res.rule = "replay of one recorded call sequence"
     if f["input"].get("t") == "boundary":
         boundary_probe(res)
+        return res
+    if f["input"].get("t") == "eq":
+        eq_probe(res)
+        return res
+    if f["input"].get("t") == "f64":
+        vals = [float.fromhex(v) if v.lstrip("-").startswith("0x") else int(v) for v in f["input"]["values"]]
+        f64_section(res, random.Random(0), "quick", only=(f["input"]["filter"], f["input"].get("mode", "replay"), vals))
         return res
     if f["input"]["case"].startswith("instances "):
         check_instances(res, [parse_instances(f["input"]["case"])])
